@@ -230,18 +230,47 @@ RANDOM_OPS = {
 }
 
 
-def model_is_random(model: Any) -> bool:
-    """True if the model contains a node that is nondeterministic by construction."""
-    from vlib.modelwalk import iter_all_nodes
+def randomness(model: Any) -> str:
+    """'random' (Random* node present), 'maybe' (Dropout whose training flag is not a
+    static False: decided at run time by executing twice), or 'no'."""
+    import onnx
+    from onnx import numpy_helper
 
-    for _, node in iter_all_nodes(model):
+    from vlib.modelwalk import iter_all_graphs, iter_all_nodes
+
+    consts: dict[str, Any] = {}
+    for _, g in iter_all_graphs(model):
+        for t in g.initializer:
+            if t.data_type == onnx.TensorProto.BOOL:
+                try:
+                    consts[t.name] = numpy_helper.to_array(t)
+                except Exception:  # noqa: BLE001
+                    pass
+    nodes = list(iter_all_nodes(model))
+    for _, node in nodes:
+        if node.op_type == "Constant":
+            for a in node.attribute:
+                if a.name == "value" and a.t.data_type == onnx.TensorProto.BOOL:
+                    try:
+                        consts[node.output[0]] = numpy_helper.to_array(a.t)
+                    except Exception:  # noqa: BLE001
+                        pass
+    for _, node in nodes:
+        if node.op_type == "Not" and node.input and node.input[0] in consts:
+            consts[node.output[0]] = ~consts[node.input[0]]
+    verdict = "no"
+    for _, node in nodes:
         if node.op_type in RANDOM_OPS:
-            return True
-        if node.op_type == "Dropout":
-            # training_mode is input 2; absent / constant false means identity
-            if len(node.input) >= 3 and node.input[2]:
-                return True
-    return False
+            return "random"
+        if node.op_type == "Dropout" and len(node.input) >= 3 and node.input[2]:
+            c = consts.get(node.input[2])
+            if c is None or bool(c.any()):
+                verdict = "maybe"
+    return verdict
+
+
+def model_is_random(model: Any) -> bool:
+    return randomness(model) == "random"
 
 
 def numeric_ok(tp: dict[str, Any]) -> bool:
